@@ -15,7 +15,7 @@ ASSUMPTIONS = [
 ]
 
 HOOK_COMMITS = ["aa112f6"]
-FIX_COMMITS = ["536bdea", "2163003", "086d718", "eebbb00", "ae8746e", "813750d", "4dcfce1", "affca7a", "6634824", "7638f19", "8a1300b", "fe98d51", "caf36c4", "e4b64f7", "0c686df", "48a484d", "a33ca28"]
+FIX_COMMITS = ["536bdea", "2163003", "086d718", "eebbb00", "ae8746e", "813750d", "4dcfce1", "affca7a", "6634824", "7638f19", "8a1300b", "fe98d51", "caf36c4", "e4b64f7", "0c686df", "48a484d", "a33ca28", "1d2c9d7", "159b1e5"]
 NOT_YET = {}
 
 CFG = {
@@ -60,7 +60,6 @@ CFG = {
         "level_note": "Trusted: Lean kernel, Mathlib, hand-written model validated by the correspondence run; nalgebra quaternion/Euler conversions are compared, not proved; rounding not analysed.",
         "files": ["src/geom2/align2.rs", "src/geom2/align2/rc_params2.rs", "src/geom2/align2/jacobian.rs", "src/geom3/align3.rs", "src/geom3/align3/rotations.rs", "src/geom3/align3/jacobian.rs", "src/geom3/align3/multi_param.rs"],
         "tol": {"*": 1e-8, "param.wpr": 1e-6, "jac.row3": 1e-7},
-        "claimed": False,
     },
     "C09": {
         "cases": {"quick": 800, "thorough": 80000},
